@@ -240,9 +240,17 @@ func c13Run(r *fw.R, d c13Desc) {
 					if d.Conflict {
 						// a caller (a proxy, say) hands over headers named like the handshake's own: whatever happens to
 						// them, the request that goes out is still a well-formed upgrade request with a fresh key
-						for k, v := range map[string]string{"Connection": "keep-alive", "Upgrade": "h2c", "Sec-WebSocket-Version": "8", "Sec-WebSocket-Key": "c3RhbGUgc3RhbGUgc3RhbGUhIQ==",
-							"Sec-WebSocket-Protocol": "stale-protocol", "Sec-WebSocket-Extensions": "x-stale-extension"} {
+						for k, v := range map[string]string{"Connection": "keep-alive", "Upgrade": "h2c", "Sec-WebSocket-Version": "8", "Sec-WebSocket-Key": "c3RhbGUgc3RhbGUgc3RhbGUhIQ=="} {
 							hdr.Set(k, v)
+						}
+						// (a caller's own subprotocol / extension header is the caller's business when the options
+						// request nothing - it is then one of "the caller's headers"; when the options do request
+						// something, what they request is what has to go out)
+						if len(d.Requested) > 0 {
+							hdr.Set("Sec-WebSocket-Protocol", "stale-protocol")
+						}
+						if d.Mode != 0 {
+							hdr.Set("Sec-WebSocket-Extensions", "x-stale-extension")
 						}
 						r.Count("dials_with_caller_headers_named_like_handshake_headers", 1)
 					}
